@@ -220,7 +220,7 @@ def r5_anchors(ctx, res):
         res.inst(key, v.loc(), f'{len(sub)}')
         if not sub or not all(c[0] == f'for {both}' for _, _, _, c, _ in sub):
             res.find(key, v.loc(), '_shortest_hyp_paths no longer collects, per side and common hypernym, the sub-path up to that hypernym')
-    lch_max = f'max([_2 for _1, _2 in {_SHP}], default=-1)'
+    lch_max = f'max((_2 for _1, _2 in {_SHP}), default=-1)'
     expect(res, 'anchor:lch', T('lowest_common_hypernyms'), [
         ('return', '[]', (f'{lch_max} == -1',)),
         ('call', '#1.append($1[0])', (f'$1[1] == {lch_max}',), (f'for {_SHP}',)),
